@@ -68,3 +68,39 @@ def cot_families(r, shapes):
     yield 'dense integer, every output sums to exactly 0', dense
     yield 'all ones', [torch.ones(s, dtype=torch.float64) for s in shapes]
     yield 'randn * 2^-40', [torch.tensor(r.standard_normal(s)) * 2.0 ** -40 for s in shapes]
+
+
+SHRINK_KEYS = [('J', 1), ('nops', 1), ('H', 2), ('W', 2), ('N', 2), ('S', 8), ('C', 1), ('nthreads', 1)]
+def generic_shrink(mod, cfg, fail, is_known, budget=40):
+    """Greedy shrinking of a failing oracle configuration: lower the size-like integer fields while the SAME kind of failure
+    (a wrong result stays a wrong result, an exception stays an exception) persists and the case is not a listed known finding.
+    Returns (cfg, fail, steps tried)."""
+    cur, cur_fail, tried = dict(cfg), fail, 0
+    improved = True
+    while improved and tried < budget:
+        improved = False
+        for key, lo in SHRINK_KEYS:
+            v = cur.get(key)
+            if not isinstance(v, int) or isinstance(v, bool) or v <= lo: continue
+            for cand in sorted({lo, v // 2, v - 2, v - 1}):
+                if cand < lo or cand >= v or tried >= budget: continue
+                new = dict(cur); new[key] = cand
+                # list-valued fields tied to J (skip masks, subsets, scales) are cut to the new length
+                if key == 'J':
+                    for k2, v2 in cur.items():
+                        if isinstance(v2, list) and len(v2) in (v, v + 1) and k2 != 'layout':
+                            new[k2] = v2[:cand + (len(v2) - v)]
+                            if k2 == 'subset' and not any(new[k2]): new[k2][0] = 1
+                if isinstance(new.get('axes'), list):          # derived field (axis length, filter length) used by the known-finding predicates
+                    lens = [new['N']] if 'N' in new and len(new['axes']) == 1 else [new.get('H'), new.get('W')]
+                    if len(lens) == len(new['axes']) and all(isinstance(v3, int) for v3 in lens):
+                        new['axes'] = [[int(n3), int(a3[1])] for n3, a3 in zip(lens, new['axes'])]
+                tried += 1
+                try:
+                    f2 = mod.oracle_run(new)
+                except Exception as e:
+                    f2 = dict(error='%s: %s' % (type(e).__name__, e))
+                if f2 and ('error' in f2) == ('error' in cur_fail) and not is_known(new, f2):
+                    cur, cur_fail, improved = new, f2, True
+                    break
+    return cur, cur_fail, tried
